@@ -244,7 +244,60 @@ def designspace_section(ctx):
                 break
 
 
+def color_layer_section(ctx):
+    """colour fonts built from colour LAYERS: the layer's glyphs are exported as `<name>.<layer>` alternates, and a composite of
+    the layer refers to the LAYER's glyph of that name, not the default layer's.  Two composites of one layer share a base whose
+    layer outline differs from the default layer's; every alternate's CFF outline is the layer glyph resolved within the layer"""
+    import ufo2ft
+    from fontTools.ttLib import TTFont
+    from fontTools.pens.recordingPen import RecordingPen
+    PAL, MAP = "com.github.googlei18n.ufo2ft.colorPalettes", "com.github.googlei18n.ufo2ft.colorLayerMapping"
+
+    def box(glyph, x0, y0, x1, y1):
+        pen = glyph.getPen(); pen.moveTo((x0, y0)); pen.lineTo((x1, y0)); pen.lineTo((x1, y1)); pen.lineTo((x0, y1)); pen.closePath()
+    for i in range(ctx.budget(4, 8)):
+        lib = ["ufoLib2", "defcon"][i % 2]
+        ver = [1, 2][(i // 2) % 2]
+        desc = {"glyphs": [{"name": n, "unicodes": [u], "width": 600, "contours": [], "components": [], "anchors": []}
+                           for n, u in (("a", 0x61), ("acute", 0xB4), ("grave", 0x60), ("aacute", 0xE1), ("agrave", 0xE0))],
+                "glyphOrder": ["a", "acute", "grave", "aacute", "agrave"], "lib": {PAL: [[(1.0, 0.0, 0.0, 1.0)]]}}
+        case = {"font": jsonable(desc), "lib": lib, "options": {"cffVersion": ver}, "level": "colour layers",
+                "layer_color1": "a = box(100,0,400,300); aacute = a + acute@(0,350); agrave = a + grave@(0,350) (the default layer's a is box(50,0,550,500))"}
+        ctx.count(); ctx.klass("sem:colour layers/cff%d" % ver); ctx.nontriv(("col", i, ctx.scale))
+        try:
+            font = build_font(desc, lib)
+            for n, b in (("a", (50, 0, 550, 500)), ("acute", (200, 520, 300, 600)), ("grave", (250, 520, 350, 600))):
+                box(font[n], *b)
+            for n, m_ in (("aacute", "acute"), ("agrave", "grave")):
+                font[n].getPen().addComponent("a", (1, 0, 0, 1, 0, 0)); font[n].getPen().addComponent(m_, (1, 0, 0, 1, 0, 0))
+            layer = font.newLayer("color1")
+            for n, b in (("a", (100, 0, 400, 300)), ("acute", (210, 10, 290, 60)), ("grave", (260, 10, 340, 60))):
+                g = layer.newGlyph(n); g.width = 600; box(g, *b)
+            for n, m_ in (("aacute", "acute"), ("agrave", "grave")):
+                g = layer.newGlyph(n); g.width = 600
+                g.getPen().addComponent("a", (1, 0, 0, 1, 0, 0)); g.getPen().addComponent(m_, (1, 0, 0, 1, 0, 350))
+            font.lib[MAP] = [("color1", 0)]
+            tt = ufo2ft.compileOTF(font, cffVersion=ver, useProductionNames=False)
+            b_ = io.BytesIO(); tt.save(b_); tt = TTFont(io.BytesIO(b_.getvalue()))
+        except Exception as e:
+            ctx.spec_failure(case, "compileOTF raised %s: %s\n%s" % (type(e).__name__, e, traceback.format_exc()[-1000:]))
+            continue
+        gs = tt.getGlyphSet()
+        want = {"a.color1": [(100, 0)], "aacute.color1": [(100, 0), (210, 360)], "agrave.color1": [(100, 0), (260, 360)],
+                "a": [(50, 0)], "aacute": [(50, 0), (200, 520)], "agrave": [(50, 0), (250, 520)]}
+        for n, starts in want.items():
+            if n not in gs:
+                ctx.spec_failure(dict(case, glyph=n), "the compiled colour font has no glyph %r (glyph order %r)" % (n, tt.getGlyphOrder()))
+                break
+            rp = RecordingPen(); gs[n].draw(rp)
+            got = [a[0] for op, a in rp.value if op == "moveTo"]
+            if got != starts:
+                ctx.spec_failure(dict(case, glyph=n, contour_starts=got), "%r: its contours start at %r; resolved within its own layer they start at %r" % (n, got, starts))
+                break
+
+
 def explore(ctx):
+    color_layer_section(ctx)
     from harness.pipeline_check import pipeline_section
     pipeline_section(ctx, "otf")
     renamed_section(ctx)
